@@ -85,7 +85,8 @@ func (*baseExecutor) GetScanSlice(columnNames []string, tableMeta *types.TableMe
 				scanSlice = append(scanSlice, &scanVal)
 			}
 		default:
-			scanVal := sql.RawBytes{}
+			// nil, not empty: a NULL column leaves the destination untouched
+			var scanVal sql.RawBytes
 			scanSlice = append(scanSlice, &scanVal)
 		}
 	}
@@ -281,6 +282,14 @@ func getSqlNullValue(value interface{}) interface{} {
 			return v.Int64
 		}
 		return nil
+	}
+	if v, ok := value.(sql.RawBytes); ok {
+		// RawBytes points into the driver's read buffer, which the next row or statement overwrites:
+		// the image must own its bytes
+		if v == nil {
+			return nil
+		}
+		return append([]byte{}, v...)
 	}
 	return value
 }
